@@ -22,6 +22,7 @@ import (
 	"strings"
 	"sync"
 	"sync/atomic"
+	"syscall"
 	"time"
 )
 
@@ -544,6 +545,16 @@ func runCheck(spec *PropSpec, tier string) int {
 		}
 	}
 	dir := filepath.Join(verifDir, ".build", spec.ID)
+	os.MkdirAll(dir, 0o755)
+	// one run of a check at a time: two runs share the build directory and would delete each
+	// other's scratch files and binary
+	if lf, err := os.OpenFile(filepath.Join(dir, "lock"), os.O_CREATE|os.O_RDWR, 0o644); err == nil {
+		if err := syscall.Flock(int(lf.Fd()), syscall.LOCK_EX|syscall.LOCK_NB); err != nil {
+			fmt.Printf("NOTE another run of %s is in progress; waiting for it\n", spec.ID)
+			syscall.Flock(int(lf.Fd()), syscall.LOCK_EX)
+		}
+		defer lf.Close()
+	}
 	os.RemoveAll(filepath.Join(dir, "scratch"))
 	os.MkdirAll(filepath.Join(dir, "scratch"), 0o755)
 	defer os.RemoveAll(filepath.Join(dir, "scratch"))
